@@ -50,7 +50,41 @@ def cnt(xs):
     return n
 def deep(n):
     return [n] if n == 0 else [n, deep(n - 1)]
+def m_pop(c, k):
+    return c.pop(k)
+def m_clear(c):
+    c.clear()
+    return len(c)
+def m_index(c, x):
+    return c.index(x)
+def m_remove(c, x):
+    c.remove(x)
+    return len(c)
+def m_update(c, o):
+    c.update(o)
+    return len(c)
+def enc(v):
+    return json.encode(v)
+def show(v):
+    return repr(v) + str(v)
+nested = {"k": [strs2, dstr, (1, 2, {"z": [None, True, 1.5]})], "e": [], "s": "x" * 20}
 "#;
+
+/// Same frozen call sites (`c.pop(k)`, `c.clear()`, ...) hit with receivers of a different type on
+/// every thread, and shared frozen values serialised / printed by several threads at once.
+fn hammer_program(variant: u64, n: u64) -> String {
+    let body = match variant % 5 {
+        0 => "    c = [i, i + 1, i + 2]\n    out.append(m_pop(c, 0))\n    out.append(m_index(c, i + 2))\n    out.append(m_remove(c, i + 1))\n    out.append(m_clear(c))\n",
+        1 => "    c = {i: 1, i + 1: 2}\n    out.append(m_pop(c, i))\n    out.append(m_update(c, {7: 7}))\n    out.append(m_clear(c))\n",
+        2 => "    c = set([i, i + 1])\n    out.append(m_remove(c, i))\n    out.append(m_update(c, [9]))\n    out.append(m_clear(c))\n",
+        3 => "    out.append(m_index(\"abc\" + str(i), \"c\"))\n    out.append(m_index((\"q\" * (i % 3)) + \"z\", \"z\"))\n",
+        _ => "    c = [i, i + 1] if i % 2 == 0 else {i: 1, i + 1: 2}\n    out.append(m_pop(c, 0 if i % 2 == 0 else i))\n    out.append(m_clear(c))\n",
+    };
+    format!(
+        "load(\"shared0\", \"m_pop\", \"m_clear\", \"m_index\", \"m_remove\", \"m_update\", \"enc\", \"show\", \"dstr\", \"strs2\", \"nested\")\nout = []\nfor i in range({n}):\n{body}    out.append(enc(nested)[-24:])\n    out.append(show(nested)[:30])\n    out.append(enc(dstr)[:16])\nemit(out[:14], len(out), hash(str(out)))\n"
+    )
+}
+
 
 const USE_SHARED: &str = r#"
 emit([hash(s) for s in strs][:5], len({s: 1 for s in strs}), [lookup("key-" + str(i)) for i in range(0, 30, 7)])
@@ -143,6 +177,10 @@ fn run_thread_ops(tid: usize, ops: &[Json], shared: &Shared, coop: &Arc<Coop<Msg
                 let t = format!("load(\"shared0\", \"strs\", \"strs2\", \"dstr\", \"Rec\", \"Col\", \"mkrec\", \"lookup\", \"cnt\", \"deep\")\n{}\n{}", text(), USE_SHARED);
                 eval_program(&format!("t{tid}_{i}.star"), &t, &loader, false);
             }
+            "hammer" => {
+                let t = hammer_program(op["variant"].as_u64().unwrap_or(0), op["n"].as_u64().unwrap_or(5));
+                eval_program(&format!("t{tid}_{i}.star"), &t, &loader, false);
+            }
             "build" => {
                 if let Some(fm) = eval_program(&format!("t{tid}_{i}.star"), &text(), &loader, true) {
                     observe_module(&fm, "built");
@@ -204,19 +242,21 @@ pub struct ScenarioResult {
     pub switches: u64,
     pub steps: u64,
     pub trace_hash: u64,
-    pub site_counts: [u64; 16],
-    pub site_switches: [u64; 16],
+    pub site_counts: [u64; 32],
+    pub site_switches: [u64; 32],
     pub chosen: Vec<u8>,
     pub forced_divergence: bool,
+    pub rescues: u64,
 }
 
-pub fn run_scenario(case: &Json, seed: u64, policy: Policy) -> ScenarioResult {
+pub fn run_scenario(case: &Json, seed: u64, policy: Policy, atomic: bool) -> ScenarioResult {
     sched::install();
+    crate::atomrt::enable(atomic);
     let shared = Arc::new(build_shared(case));
     let empty = Vec::new();
     let threads = case["threads"].as_array().unwrap_or(&empty).clone();
     let n = threads.len();
-    let coop: Arc<Coop<Msg>> = Coop::new(n, seed, policy, case["max_steps"].as_u64().unwrap_or(20_000));
+    let coop: Arc<Coop<Msg>> = Coop::new(n, seed, policy, case["max_steps"].as_u64().unwrap_or(20_000) * if atomic { 10 } else { 1 });
     coop.pick_initial();
     let results: Arc<std::sync::Mutex<Vec<(Vec<String>, Option<String>)>>> = Arc::new(std::sync::Mutex::new(vec![(Vec::new(), None); n]));
     let mut joins = Vec::new();
@@ -234,7 +274,11 @@ pub fn run_scenario(case: &Json, seed: u64, policy: Policy) -> ScenarioResult {
                     coop.start(tid);
                     {
                         let c2 = coop.clone();
-                        sched::set_site_hook(Some(Box::new(move |site| c2.yield_point(tid, site))));
+                        sched::set_site_hook(Some(Box::new(move |site| {
+                            if site != verif_hooks::Site::AtomicOp || atomic {
+                                c2.yield_point(tid, site)
+                            }
+                        })));
                     }
                     let r = std::panic::catch_unwind(std::panic::AssertUnwindSafe(|| run_thread_ops(tid, &ops, &shared, &coop)));
                     sched::set_site_hook(None);
@@ -260,6 +304,13 @@ pub fn run_scenario(case: &Json, seed: u64, policy: Policy) -> ScenarioResult {
             }
             let (g2, _) = coop.main_cv.wait_timeout(g, std::time::Duration::from_millis(200)).unwrap_or_else(|e| e.into_inner());
             g = g2;
+            if g.last_progress.elapsed() > std::time::Duration::from_millis(400) && g.last_progress.elapsed() <= std::time::Duration::from_secs(20) {
+                // Nobody passed a scheduling point for a while: is the baton holder blocked on a
+                // native lock whose owner is parked?
+                drop(g);
+                coop.try_rescue();
+                g = coop.inner.lock().unwrap_or_else(|e| e.into_inner());
+            }
             if g.last_progress.elapsed() > std::time::Duration::from_secs(20) {
                 hung = Some(format!("no scheduling progress for 20 s; last point {:?}; states {:?}", g.last_site, g.states));
                 g.abort = true;
@@ -273,6 +324,7 @@ pub fn run_scenario(case: &Json, seed: u64, policy: Policy) -> ScenarioResult {
             let _ = j.join();
         }
     }
+    crate::atomrt::enable(false);
     let g = coop.inner.lock().unwrap_or_else(|e| e.into_inner());
     let res = results.lock().unwrap_or_else(|e| e.into_inner());
     ScenarioResult {
@@ -287,13 +339,14 @@ pub fn run_scenario(case: &Json, seed: u64, policy: Policy) -> ScenarioResult {
         site_switches: g.site_switches,
         chosen: g.chosen.clone(),
         forced_divergence: g.forced_divergence,
+        rescues: g.rescues,
     }
 }
 
-const SITE_NAMES: [&str; 16] = [
+const SITE_NAMES: [&str; 17] = [
     "chunk_clone", "chunk_drop_before", "chunk_drop_dealloc", "chunk_cache_release", "chunk_cache_alloc", "frozen_heap_into_ref",
     "frozen_heap_drop", "add_reference", "str_hash", "atomic_value_load", "atomic_value_store", "post_freeze", "type_instance_id",
-    "static_string_hash", "tick", "send",
+    "static_string_hash", "tick", "send", "atomic_op",
 ];
 
 fn policy_from_json(p: &Json) -> Policy {
@@ -314,12 +367,13 @@ impl World for C20 {
     fn describe(&self) -> Describe {
         Describe {
             level: "exploration",
-            rule: "case = 1-3 shared frozen modules (generated values of all kinds, functions, record/enum types, strings whose hash is not yet computed) + 2-6 per-thread workloads (load and use the shared modules, hash/compare/repr their values, construct shared record/enum types, build-freeze-drop own modules, send a frozen module to another thread which uses and drops it) x 3-5 seeded schedules (uniform random, PCT with d change points, few pre-emptions) over the hooked scheduling points; reference = the same scenario under the run-to-completion schedule; non-trivial = at least one context switch at a hooked /repo site; distinct = distinct digest of the (thread, site) sequence of a schedule",
-            sim_time_unit: "scheduling points passed (shared-state sites in /repo + evaluator ticks + send/recv)",
-            real_components: vec!["chunk.rs / chunk_part.rs / chain.rs / per_thread.rs / allocator.rs re-compiled from /repo with a scheduling point before every atomic access (chunk micro-world under shuttle, 1 case in 5)", "frozen heaps / FrozenHeapRef ref-counting", "chunk allocator, chunk ref-counts, per-thread chunk cache", "lazy string hash cache", "frozen def atomic cells / post_freeze", "record / enum types", "evaluator on every thread", "std thread-locals and statics (real OS threads)"],
+            rule: "case = 1-3 shared frozen modules (generated values of all kinds, functions, record/enum types, strings whose hash is not yet computed, polymorphic helper functions) + 2-6 per-thread workloads (load and use the shared modules, hash/compare/repr/json-encode their values, construct shared record/enum types, call the same frozen functions with receivers of a different type per thread, build-freeze-drop own modules, send a frozen module to another thread which uses and drops it) x 3-5 seeded schedules (uniform random, PCT with d change points, few pre-emptions) over the scheduling points: the hooked /repo sites, every evaluator tick, send/recv and - in half of the schedules - every atomic operation executed by the /repo library crates (atomics-only instrumented build); reference = the same scenario under the run-to-completion schedule; 1 case in 5 is the chunk micro-world, 1 in 8 a cold-start process; non-trivial = at least one context switch at a /repo site; distinct = distinct digest of the (thread, site) sequence of a schedule",
+            sim_time_unit: "scheduling points passed (shared-state sites in /repo + atomic operations + evaluator ticks + send/recv)",
+            real_components: vec!["starlark, starlark_map, starlark_syntax compiled with a scheduling point before every atomic operation (TSan atomics-only instrumentation, runtime = sim/src/atomrt.rs), including std generics instantiated in them (Arc, OnceLock / Mutex fast paths)", "chunk.rs / chunk_part.rs / chain.rs / per_thread.rs / allocator.rs re-compiled from /repo with a scheduling point before every atomic access (chunk micro-world under shuttle, 1 case in 5)", "frozen heaps / FrozenHeapRef ref-counting", "chunk allocator, chunk ref-counts, per-thread chunk cache", "lazy string hash cache", "frozen def atomic cells / post_freeze", "record / enum types", "evaluator on every thread", "std thread-locals and statics (real OS threads)"],
             stub_components: vec!["OS scheduler (replaced by the seeded cooperative scheduler: one thread holds the baton at a time)", "mailboxes between threads", "file loader"],
             assumptions: vec![
-                "code between two scheduling points runs atomically; a data race on a location without a scheduling point is only seen if it changes a result at this granularity (no happens-before race detector: Miri cannot run the crate)",
+                "code between two scheduling points runs atomically; a data race on plain (non-atomic) memory is only seen if it changes a result or trips an assertion at this granularity (no happens-before race detector: Miri cannot run the crate, real TSan needs an instrumented std)",
+                "atomic operations are executed sequentially consistent (no weak-memory behaviours are explored)",
                 "initialisers of process-wide lazies run without pre-emption (Once guarantees nobody observes their intermediate states)",
             ],
             exhaustive: false,
@@ -342,7 +396,13 @@ impl World for C20 {
         kit::ctx_reset();
         let loader = kit::MapLoader { modules: BTreeMap::new() };
         let t = format!("{SHARED_EXTRA}\n{USE_SHARED}\nx = [1, 2]\nx.append(3)\nemit(sorted(x), {{1: 2}}, \"a%s\" % 1, json.encode(x), partial(len, x)())\n");
-        let _ = eval_program("warmup.star", &t, &loader, true);
+        if let Some(fm) = eval_program("warmup.star", &t, &loader, true) {
+            let mut l2 = kit::MapLoader { modules: BTreeMap::new() };
+            l2.modules.insert("shared0".to_owned(), fm);
+            for v in 0..5 {
+                let _ = eval_program("warmup2.star", &hammer_program(v, 2), &l2, false);
+            }
+        }
         kit::ctx_reset();
     }
 
@@ -376,6 +436,7 @@ impl World for C20 {
             shared_exports.push((format!("shared{i}"), exports));
         }
         let nt = 2 + wl.usize(5);
+        let hammer_mixed = wl.bool();
         let mut threads: Vec<Vec<Json>> = vec![Vec::new(); nt];
         for t in 0..nt {
             let nops = 1 + wl.usize(4);
@@ -396,7 +457,7 @@ impl World for C20 {
                 let loaded = vec![(m.clone(), pick)];
                 let n = 2 + wl.usize(8);
                 let (stmts, _) = gen_module(&mut wl, feat, &format!("t{t}o{k}_"), n, &loaded, false);
-                match wl.below(10) {
+                match wl.below(13) {
                     0..=3 => threads[t].push(json!({"op": "use", "stmts": stmts})),
                     4..=6 => {
                         threads[t].push(json!({"op": "build", "stmts": stmts, "keep": wl.bool()}));
@@ -404,6 +465,7 @@ impl World for C20 {
                             threads[t].push(json!({"op": "drop_kept"}));
                         }
                     }
+                    7..=9 => threads[t].push(json!({"op": "hammer", "variant": if hammer_mixed { wl.below(5) } else { t as u64 }, "n": 2 + wl.below(24)})),
                     _ => {
                         let to = (t + 1 + wl.usize(nt - 1)) % nt;
                         threads[t].push(json!({"op": "send", "to": to, "stmts": stmts}));
@@ -416,11 +478,15 @@ impl World for C20 {
         let schedules: Vec<Json> = (0..np)
             .map(|_| {
                 let s = sch.next_u64() >> 8;
+                // With scheduling points at every atomic operation of the /repo crates there are
+                // roughly ten times more points per run: horizons scale with it.
+                let atomic = sch.bool();
+                let k = if atomic { 1 + sch.below(12) } else { 1 };
                 match sch.below(4) {
-                    0 => json!({"kind": "random", "seed": s}),
-                    1 => json!({"kind": "pct", "d": 1 + sch.below(5), "horizon": 200 + sch.below(6000), "seed": s}),
-                    2 => json!({"kind": "few", "one_in": *sch.pick(&[5u64, 20, 100, 400]), "seed": s}),
-                    _ => json!({"kind": "pct", "d": 2 + sch.below(8), "horizon": 50 + sch.below(800), "seed": s}),
+                    0 => json!({"kind": "random", "seed": s, "atomic": atomic}),
+                    1 => json!({"kind": "pct", "d": 1 + sch.below(5), "horizon": (200 + sch.below(6000)) * k, "seed": s, "atomic": atomic}),
+                    2 => json!({"kind": "few", "one_in": *sch.pick(&[5u64, 20, 100, 400]), "seed": s, "atomic": atomic}),
+                    _ => json!({"kind": "pct", "d": 2 + sch.below(8), "horizon": (50 + sch.below(800)) * k, "seed": s, "atomic": atomic}),
                 }
             })
             .collect();
@@ -502,11 +568,11 @@ impl World for C20 {
         verif_hooks::set_quarantine(case["quarantine"].as_bool().unwrap_or(false));
         // In a cold process the first concurrent schedule runs BEFORE the sequential reference.
         let cold_first = if cold {
-            case["schedules"].as_array().and_then(|a| a.first()).map(|p| (p.clone(), run_scenario(case, p["seed"].as_u64().unwrap_or(1), policy_from_json(p))))
+            case["schedules"].as_array().and_then(|a| a.first()).map(|p| (p.clone(), run_scenario(case, p["seed"].as_u64().unwrap_or(1), policy_from_json(p), p["atomic"].as_bool().unwrap_or(false))))
         } else {
             None
         };
-        let reference = run_scenario(case, 1, Policy::Sequential);
+        let reference = run_scenario(case, 1, Policy::Sequential, false);
         if let Some((p, r)) = &cold_first {
             o.bump("fault.context_switches", r.switches);
             o.sim_time += r.steps;
@@ -552,11 +618,14 @@ impl World for C20 {
             if o.violation.is_some() {
                 break;
             }
-            let r = run_scenario(case, p["seed"].as_u64().unwrap_or(1), policy_from_json(p));
+            let r = run_scenario(case, p["seed"].as_u64().unwrap_or(1), policy_from_json(p), p["atomic"].as_bool().unwrap_or(false));
             o.sim_time += r.steps;
             o.bump("schedules_run", 1);
             o.bump("fault.context_switches", r.switches);
-            for i in 0..16 {
+            if r.rescues > 0 {
+                o.bump("fault.native_lock_block_rescued", r.rescues);
+            }
+            for i in 0..17 {
                 if r.site_counts[i] > 0 {
                     o.bump(&format!("site.{}", SITE_NAMES[i]), r.site_counts[i]);
                 }
@@ -569,8 +638,12 @@ impl World for C20 {
             }
             digests.push(r.trace_hash);
             log.push(format!("schedule {si}: steps={} switches={} trace={:x}", r.steps, r.switches, r.trace_hash));
-            let what = format!("schedule #{si} {p}");
-            let art = json!({"schedule_index": si, "seed": p["seed"], "choices": r.chosen});
+            let what = if p["kind"] == "forced" {
+                format!("schedule #{si} (literal, {} choices, atomic points {})", p["choices"].as_array().map(|a| a.len()).unwrap_or(0), p["atomic"].as_bool().unwrap_or(false))
+            } else {
+                format!("schedule #{si} {p}")
+            };
+            let art = json!({"schedule_index": si, "seed": p["seed"], "choices": r.chosen, "atomic": p["atomic"]});
             if let Some(h) = &r.hung {
                 o.violate("hang", "hang", format!("{what}: {h}"));
                 o.artifact = Some(art);
@@ -601,7 +674,7 @@ impl World for C20 {
                 o.bump("forced_schedule_divergences", 1);
             }
             if o.violation.is_some() && o.artifact.is_none() {
-                o.artifact = Some(json!({"schedule_index": si, "seed": p["seed"], "choices": r.chosen}));
+                o.artifact = Some(json!({"schedule_index": si, "seed": p["seed"], "choices": r.chosen, "atomic": p["atomic"]}));
             }
         }
         // Distinct interleavings reached in this case.
@@ -616,7 +689,7 @@ impl World for C20 {
     fn apply_artifact(&self, case: &Json, artifact: &Json) -> Json {
         // Replace the schedule policies by the literal choice sequence that was taken.
         let mut c = case.clone();
-        c["schedules"] = json!([{"kind": "forced", "seed": artifact["seed"], "choices": artifact["choices"]}]);
+        c["schedules"] = json!([{"kind": "forced", "seed": artifact["seed"], "choices": artifact["choices"], "atomic": artifact["atomic"]}]);
         c
     }
 
